@@ -4098,6 +4098,571 @@ fn run_fullval(out: &mut Out, rng: &mut Rng, work: &str, thorough: bool) -> BTre
 	cx.stats
 }
 
+/// C03 / C06 / C02: the "already known" short-cuts of block processing (`Chain::is_known`,
+/// `pipe::check_known` / `_head` / `_store`, the known-header exit of `process_block_header`) in
+/// every combination with forks, with `Chain::reset_chain_head` (after which blocks with MORE work
+/// than the head are in the store and are offered AGAIN, in any order), with the header denylist
+/// (`Chain::invalidate_header`: denied block, its descendants, a never-seen denied block, a
+/// restart) and with processing options that must reach the adapter unchanged - also through the
+/// orphan pool (`Orphan.opts`). Model: Model/ChainKnown.lean.
+fn run_known(out: &mut Out, rng: &mut Rng, work: &str, thorough: bool) -> BTreeMap<String, u64> {
+	let mut stats: BTreeMap<String, u64> = BTreeMap::new();
+	let nh = if thorough { 8 } else { 3 };
+	for hist in 0..nh {
+		out.raw("chain reset");
+		let kit = Kit::new(&format!("{}/kbuilder{}", work, hist));
+		let mut g = Gen { kit, states: BTreeMap::new(), valid: vec![], invalid: vec![], stats: BTreeMap::new(), outs_described: 0, blks_described: 0 };
+		let mut s0 = AState::default();
+		s0.utxo.insert(0, (0, true));
+		g.states.insert(0, s0);
+		// history 0: a chain long enough for the `OldBlock` branch of check_known_store (more than 50
+		// blocks between a stored block and the head)
+		let long = hist == 0;
+		let trunk_len = if long { 56 } else { rng.range(7, 11) };
+		let mut tip = 0usize;
+		let mut trunk = vec![0usize];
+		for _ in 0..trunk_len {
+			let d = rng.range(1, 5);
+			if let Some(id) = g.add_valid(rng, tip, d) {
+				tip = id;
+				trunk.push(id);
+			}
+		}
+		let mut branches: Vec<Vec<usize>> = vec![];
+		let nbr = rng.range(2, 3);
+		for _ in 0..nbr {
+			let lo = if trunk.len() > 8 { trunk.len() - 8 } else { 1 };
+			let start = trunk[lo + rng.below((trunk.len() - 1 - lo) as u64) as usize];
+			let depth = rng.range(1, 4);
+			let mut t = start;
+			let mut br = vec![];
+			for _ in 0..depth {
+				let d = rng.range(1, 7);
+				match g.add_valid(rng, t, d) {
+					Some(id) => {
+						t = id;
+						br.push(id);
+					}
+					None => break,
+				}
+			}
+			if !br.is_empty() {
+				branches.push(br);
+			}
+		}
+		// the last branch is never delivered before the denylist phase
+		let late: Vec<usize> = if branches.len() >= 2 { branches.pop().unwrap() } else { vec![] };
+		// header-sync chunks: a valid chain v1-v2-v3(-v4) on a trunk block a few below the tip, and for
+		// every invalid-header kind and every non-last position j a TWIN chain: the headers before j
+		// are the valid ones, header j is wrong (prev_root / timestamp / version), the followers are
+		// built honestly on top of it (same bodies, prev_hash and prev_root re-computed for THAT
+		// history, so only header j is wrong)
+		let chunk_root = trunk[trunk.len() - 1 - std::cmp::min(trunk.len() - 2, 2 + rng.below(2) as usize)];
+		let mut vchain: Vec<usize> = vec![];
+		{
+			let mut t = chunk_root;
+			let n = 3 + rng.below(2);
+			for _ in 0..n {
+				let d = rng.range(1, 3);
+				match g.add_valid(rng, t, d) {
+					Some(id) => {
+						t = id;
+						vchain.push(id);
+					}
+					None => break,
+				}
+			}
+		}
+		// (kind, position j, twin ids for positions j..)
+		let mut twins: Vec<(&'static str, usize, Vec<usize>)> = vec![];
+		if vchain.len() >= 3 {
+			let path_headers = |kit: &Kit, mut id: usize| -> Vec<grin_core::core::BlockHeader> {
+				let mut v = vec![];
+				loop {
+					v.push(kit.blks[id].block.header.clone());
+					match kit.blks[id].parent {
+						Some(p) => id = p,
+						None => break,
+					}
+				}
+				v.reverse();
+				v
+			};
+			let mmr_root = |hs: &[grin_core::core::BlockHeader]| -> Hash {
+				use grin_core::core::pmmr::{ReadablePMMR, VecBackend, PMMR};
+				let mut ba = VecBackend::<grin_core::core::BlockHeader>::new();
+				let mut pmmr = PMMR::new(&mut ba);
+				for h in hs {
+					pmmr.push(h).unwrap();
+				}
+				pmmr.root().unwrap()
+			};
+			for kind in ["prev-root", "timestamp", "version"] {
+				for j in 0..vchain.len() - 1 {
+					if j > 1 && !thorough {
+						continue;
+					}
+					let mut ids = vec![];
+					let mut prev_id = if j == 0 { chunk_root } else { vchain[j - 1] };
+					for k in j..vchain.len() {
+						let mut b = g.kit.blks[vchain[k]].block.clone();
+						// the hash of a header is the hash of its proof of work: a twin needs its own
+						{
+							let eb = grin_core::global::min_edge_bits();
+							let mask = (1u64 << eb) - 1;
+							let mut v: Vec<u64> = (0..grin_core::global::proofsize()).map(|_| rng.below(u64::MAX) & mask).collect();
+							v.sort_unstable();
+							b.header.pow.proof = grin_core::pow::Proof { edge_bits: eb, nonces: v };
+						}
+						let mut tags: Vec<String> = vec![];
+						if k == j {
+							match kind {
+								"prev-root" => {
+									let mut v = b.header.prev_root.to_vec();
+									v[3] ^= 1;
+									b.header.prev_root = Hash::from_vec(&v);
+									tags.push("hdr:InvalidRoot".into());
+								}
+								"timestamp" => {
+									b.header.timestamp = g.kit.blks[prev_id].block.header.timestamp;
+								}
+								_ => {
+									b.header.version = grin_core::core::HeaderVersion(b.header.version.0 + 1);
+								}
+							}
+							tags.push(format!("kind:chunk-header-{}-wrong-at-{}", kind, j));
+						} else {
+							// built honestly on the wrong header
+							b.header.prev_hash = g.kit.blks[prev_id].block.hash();
+							b.header.prev_root = mmr_root(&path_headers(&g.kit, prev_id));
+							tags.push(format!("kind:chunk-follower-of-{}-wrong-at-{}", kind, j));
+						}
+						let id = g.kit.record(b, prev_id, tags, false);
+						ids.push(id);
+						prev_id = id;
+					}
+					twins.push((kind, j, ids));
+				}
+			}
+			// self-test of the root computation: the honest chain's own prev_roots
+			for k in 1..vchain.len() {
+				let want = g.kit.blks[vchain[k]].block.header.prev_root;
+				let got = mmr_root(&path_headers(&g.kit, vchain[k - 1]));
+				if want != got {
+					out.raw("#ORACLE-FAIL C03 harness self-test: header MMR root recomputed over a block's ancestors differs from the prev_root the building node set");
+				}
+			}
+		}
+		g.describe_new(out);
+		let kit = &g.kit;
+		let seen: Vec<usize> = g.valid.iter().cloned().filter(|i| !late.contains(i) && !vchain.contains(i)).collect();
+		let maxw = seen.iter().map(|i| kit.blks[*i].work).max().unwrap_or(0);
+		let unique_max = seen.iter().filter(|i| kit.blks[**i].work == maxw).count() == 1;
+
+		let orph_line = |out: &mut Out, s: &Subject, name: &str| {
+			let l: Vec<String> = (1..kit.blks.len()).filter(|i| s.c().is_orphan(&kit.blks[*i].block.hash())).map(|i| format!("b{}", i)).collect();
+			out.line(&format!("chain orph {}", name), &format!("[{}]", l.join(",")));
+		};
+		let deliver = |out: &mut Out, s: &Subject, name: &str, i: usize, opts: u32, stats: &mut BTreeMap<String, u64>| -> String {
+			discard_status();
+			let head_before = s.c().head().unwrap().last_block_h;
+			let o = grin_chain::Options::from_bits_truncate(opts);
+			let r = match s.c().process_block(kit.blks[i].block.clone(), o) {
+				Ok(Some(_)) => "ok:head".to_string(),
+				Ok(None) => "ok:fork".to_string(),
+				Err(e) => format!("err:{}", error_class(&e)),
+			};
+			out.line(&format!("chain deliver {} b{} opts={}", name, i, opts), &r);
+			let (sl, evs) = drain_status_opts(kit);
+			out.line(&format!("chain statuso {}", name), &sl);
+			status_oracle(out, kit, name, head_before, &evs, stats);
+			out.line(&format!("chain obs {}", name), &s.obs(kit));
+			r
+		};
+		let hdr = |out: &mut Out, s: &Subject, name: &str, i: usize| -> String {
+			let r = s.deliver_header(&kit.blks[i].block.header);
+			out.line(&format!("chain hdr {} b{}", name, i), &r);
+			r
+		};
+		let opt_choices = [1u32, 3, 5, 7];
+		let strip = |s: &str| -> String { s.split(' ').filter(|t| !t.starts_with("hhead=")).collect::<Vec<_>>().join(" ") };
+
+		// reference: everything seen, creation order, never reset
+		let rf = Subject::new(&format!("{}/kref_{}", work, hist), &kit.genesis);
+		for i in &seen {
+			let _ = rf.deliver_block(&kit.blks[*i].block);
+		}
+
+		// --- phase A: the short-cuts without a reset ---
+		let mut sk = new_rec_subject(&format!("{}/sk_{}", work, hist), &kit.genesis);
+		out.raw("chain new sk");
+		for i in &trunk[1..] {
+			let o = *rng.pick(&opt_choices);
+			deliver(out, &sk, "sk", *i, o, &mut stats);
+		}
+		let mut delivered: Vec<usize> = trunk[1..].to_vec();
+		let mut probe_known = |out: &mut Out, rng: &mut Rng, sk: &Subject, delivered: &Vec<usize>, stats: &mut BTreeMap<String, u64>, stage: &str| {
+			let head = *kit.by_hash.get(&sk.c().head().unwrap().last_block_h).unwrap_or(&0);
+			let mut cands = vec![head];
+			if let Some(p) = kit.blks[head].parent {
+				if p != 0 {
+					cands.push(p);
+				}
+			}
+			cands.push(*rng.pick(delivered));
+			cands.push(*rng.pick(delivered));
+			if long && delivered.len() > 52 {
+				// a block more than 50 below the head: `OldBlock` in check_known_store - which
+				// `Chain::is_known` shadows (Props/C03Known oldBlock_unreachable)
+				cands.push(trunk[1 + rng.below(3) as usize]);
+			}
+			for c in cands {
+				let rel = if kit.blks[c].work > kit.blks[head].work { "more" } else if kit.blks[c].work == kit.blks[head].work { "equal" } else { "less" };
+				let old = kit.blks[c].height + 50 < kit.blks[head].height;
+				if rng.chance(1, 2) {
+					let r = hdr(out, sk, "sk", c);
+					*stats.entry(format!("known:{}:header-of-stored-block:work-{}:{}", stage, rel, r)).or_insert(0) += 1;
+				}
+				let before = (sk.obs(kit), sk.roots());
+				let r = deliver(out, sk, "sk", c, *rng.pick(&opt_choices), stats);
+				*stats.entry(format!("known:{}:stored-block-again:work-{}{}:{}", stage, rel, if old { ":old" } else { "" }, r)).or_insert(0) += 1;
+				if r.starts_with("err") && (sk.obs(kit), sk.roots()) != before {
+					out.raw(&format!("#ORACLE-FAIL C06 a refused re-delivery of b{} ({}) changed the node: before=[{} {}] after=[{} {}]", c, r, before.0, before.1, sk.obs(kit), sk.roots()));
+				}
+			}
+		};
+		probe_known(out, rng, &sk, &delivered, &mut stats, "no-reset");
+		for br in &branches {
+			for i in br {
+				deliver(out, &sk, "sk", *i, *rng.pick(&opt_choices), &mut stats);
+				delivered.push(*i);
+				if rng.chance(1, 2) {
+					probe_known(out, rng, &sk, &delivered, &mut stats, "no-reset");
+				}
+			}
+		}
+		probe_known(out, rng, &sk, &delivered, &mut stats, "no-reset");
+
+		// --- phase B: reset below the head, then everything above it is offered again ---
+		let rounds = if thorough { 3 } else { 2 };
+		for round in 0..rounds {
+			let head = *kit.by_hash.get(&sk.c().head().unwrap().last_block_h).unwrap_or(&0);
+			let hh = kit.blks[head].height as usize;
+			if hh < 3 {
+				break;
+			}
+			let depth = 1 + rng.below(std::cmp::min(6, hh - 1) as u64) as usize;
+			let mut target = head;
+			for _ in 0..depth {
+				target = kit.blks[target].parent.unwrap();
+			}
+			// the first round keeps the header chain (PIBD restart), the second rewinds it (owner API)
+			let rewind_headers = round % 2 == 1;
+			let before_reset = (sk.obs(kit), sk.roots());
+			let th = kit.blks[target].block.header.clone();
+			let r = match sk.c().reset_chain_head(grin_chain::Tip::from_header(&th), rewind_headers) {
+				Ok(_) => "ok".to_string(),
+				Err(e) => format!("err:{}", error_class(&e)),
+			};
+			out.line(&format!("chain resethead sk b{} hdrs={}", target, if rewind_headers { 1 } else { 0 }), &r);
+			out.line("chain obs sk", &sk.obs(kit));
+			*stats.entry(format!("known:reset:depth={}:rewind_headers={}:{}", depth, rewind_headers, r)).or_insert(0) += 1;
+			// blocks on the target's own path are known and not above the head; the others are offered
+			// again in random order (children before parents included)
+			let mut on_path = BTreeSet::new();
+			let mut x = Some(target);
+			while let Some(i) = x {
+				on_path.insert(i);
+				x = kit.blks[i].parent;
+			}
+			let mut above: Vec<usize> = delivered.iter().cloned().filter(|i| !on_path.contains(i)).collect();
+			shuffle(rng, &mut above);
+			// some of the target's own ancestors as well
+			for _ in 0..2 {
+				let a = *rng.pick(&delivered);
+				above.insert(rng.below(above.len() as u64 + 1) as usize, a);
+			}
+			for i in &above {
+				let head = *kit.by_hash.get(&sk.c().head().unwrap().last_block_h).unwrap_or(&0);
+				let rel = if kit.blks[*i].work > kit.blks[head].work { "more" } else if kit.blks[*i].work == kit.blks[head].work { "equal" } else { "less" };
+				let parent_is_head = kit.blks[*i].parent == Some(head);
+				if rng.chance(1, 3) {
+					let r = hdr(out, &sk, "sk", *i);
+					out.line("chain obs sk", &sk.obs(kit));
+					*stats.entry(format!("known:after-reset:header-of-stored-block:work-{}:{}", rel, r)).or_insert(0) += 1;
+				}
+				let r = deliver(out, &sk, "sk", *i, *rng.pick(&opt_choices), &mut stats);
+				orph_line(out, &sk, "sk");
+				*stats.entry(format!("known:after-reset:stored-block-again:work-{}:{}:{}", rel, if parent_is_head { "next" } else if on_path.contains(i) { "own-path" } else { "detached" }, r)).or_insert(0) += 1;
+				// what the property fixes: a stored, valid block with more work than the head is taken
+				// (its own ancestors come from the block store), one with no more work changes nothing
+				if rel == "more" && !r.starts_with("ok:head") {
+					out.raw(&format!("#ORACLE-FAIL C03 after reset_chain_head(b{}, {}) the stored valid block b{} with more work than the head b{} was not made the head: {}", target, rewind_headers, i, head, r));
+				}
+				if rel != "more" && !r.starts_with("err") {
+					out.raw(&format!("#ORACLE-FAIL C03 after reset_chain_head(b{}, {}) the stored block b{} with no more work than the head b{} was processed again: {}", target, rewind_headers, i, head, r));
+				}
+			}
+			let after = (sk.obs(kit), sk.roots());
+			if unique_max && (strip(&after.0) != strip(&before_reset.0) || after.1 != before_reset.1) {
+				out.raw(&format!(
+					"#ORACLE-FAIL C03 reset_chain_head(b{}, {}) and re-delivery of every stored block in random order did not lead back: before=[{} {}] after=[{} {}]",
+					target, rewind_headers, before_reset.0, before_reset.1, after.0, after.1
+				));
+			}
+			if unique_max && (strip(&after.0) != strip(&rf.obs(kit)) || after.1 != rf.roots()) {
+				out.raw(&format!("#ORACLE-FAIL C02 after reset and re-delivery the node reports [{} {}], a node that was never reset [{} {}]", after.0, after.1, rf.obs(kit), rf.roots()));
+			}
+			if let Err(e) = sk.c().validate(true) {
+				out.raw(&format!("#ORACLE-FAIL C01 validate(fast) fails after reset_chain_head(b{}) and re-delivery: {}", target, error_class(&e)));
+			}
+			if let Err(e) = sk.sums_check() {
+				out.raw(&format!("#ORACLE-FAIL C01 after reset_chain_head(b{}) and re-delivery: {}", target, e));
+			}
+			probe_known(out, rng, &sk, &delivered, &mut stats, "after-redelivery");
+		}
+
+		// --- phase C: the denylist ---
+		{
+			let head = *kit.by_hash.get(&sk.c().head().unwrap().last_block_h).unwrap_or(&0);
+			let hh = kit.blks[head].height as usize;
+			if hh >= 4 {
+				// x: on the head's path, 0..2 below the head
+				let dx = rng.below(3) as usize;
+				let mut x = head;
+				for _ in 0..dx {
+					x = kit.blks[x].parent.unwrap();
+				}
+				let par = kit.blks[x].parent.unwrap();
+				let _ = sk.c().invalidate_header(kit.blks[x].block.hash());
+				out.line(&format!("chain deny sk b{}", x), "ok");
+				for rewind_headers in [false, true] {
+					// keep the header chain first: the denied header is known and not above the header
+					// head, `validate_header` (where the denylist lives) is not reached - model and code
+					// take the block again; then with the header chain rewound: refused, with every
+					// descendant
+					let ph = kit.blks[par].block.header.clone();
+					let r = match sk.c().reset_chain_head(grin_chain::Tip::from_header(&ph), rewind_headers) {
+						Ok(_) => "ok".to_string(),
+						Err(e) => format!("err:{}", error_class(&e)),
+					};
+					out.line(&format!("chain resethead sk b{} hdrs={}", par, if rewind_headers { 1 } else { 0 }), &r);
+					out.line("chain obs sk", &sk.obs(kit));
+					let before = (sk.obs(kit), sk.roots());
+					// x, then its descendants on the old head's path, then x's header
+					let mut chain_above = vec![];
+					let mut y = head;
+					while y != par {
+						chain_above.push(y);
+						y = kit.blks[y].parent.unwrap();
+					}
+					chain_above.reverse();
+					let mut results = vec![];
+					for i in &chain_above {
+						let r = deliver(out, &sk, "sk", *i, 1, &mut stats);
+						results.push(r);
+					}
+					let rh = hdr(out, &sk, "sk", x);
+					out.line("chain obs sk", &sk.obs(kit));
+					orph_line(out, &sk, "sk");
+					*stats.entry(format!("denylist:rewind_headers={}:denied-block-again={}:header={}:descendants={}", rewind_headers, results[0], rh, results[1..].join("/"))).or_insert(0) += 1;
+					if rewind_headers {
+						let after = (sk.obs(kit), sk.roots());
+						if results.iter().any(|r| r.starts_with("ok")) || rh == "ok" || before != after {
+							out.raw(&format!(
+								"#ORACLE-FAIL C06 denied block b{} (or a descendant) offered after reset_chain_head(b{}, true): results={:?} header={}; before=[{} {}] after=[{} {}]",
+								x, par, results, rh, before.0, before.1, after.0, after.1
+							));
+						}
+					}
+				}
+				// a denied block the node has never seen, and its child
+				if !late.is_empty() {
+					let _ = sk.c().invalidate_header(kit.blks[late[0]].block.hash());
+					out.line(&format!("chain deny sk b{}", late[0]), "ok");
+					let before = (sk.obs(kit), sk.roots());
+					let mut rs = vec![];
+					for i in &late {
+						if rng.chance(1, 2) {
+							hdr(out, &sk, "sk", *i);
+						}
+						rs.push(deliver(out, &sk, "sk", *i, *rng.pick(&opt_choices), &mut stats));
+					}
+					*stats.entry(format!("denylist:never-seen-denied-block-and-children:{}", rs.join("/"))).or_insert(0) += 1;
+					if rs.iter().any(|r| r.starts_with("ok")) || before != (sk.obs(kit), sk.roots()) {
+						out.raw(&format!("#ORACLE-FAIL C06 a never-seen block on the denylist (b{}) or its child was taken: {:?}", late[0], rs));
+					}
+				}
+				// the denylist lives in memory: after a restart everything is offered again and taken
+				match reopen_rec(&mut sk) {
+					Ok(_) => out.line("chain reopen sk", "ok"),
+					Err(e) => out.line("chain reopen sk", &format!("err:{}", e)),
+				}
+				out.line("chain obs sk", &sk.obs(kit));
+				let mut again: Vec<usize> = delivered.clone();
+				again.extend(late.iter().cloned());
+				for i in &again {
+					let head = *kit.by_hash.get(&sk.c().head().unwrap().last_block_h).unwrap_or(&0);
+					if kit.blks[*i].work > kit.blks[head].work {
+						let r = deliver(out, &sk, "sk", *i, *rng.pick(&opt_choices), &mut stats);
+						*stats.entry(format!("denylist:after-restart:{}", r)).or_insert(0) += 1;
+					}
+				}
+				let v = match sk.c().validate(true) {
+					Ok(_) => "ok".to_string(),
+					Err(e) => format!("err:{}", error_class(&e)),
+				};
+				out.line("chain validate sk", &v);
+			}
+		}
+
+		// --- phase D: options through the orphan pool ---
+		{
+			let so = new_rec_subject(&format!("{}/so_{}", work, hist), &kit.genesis);
+			out.raw("chain new so");
+			let m = std::cmp::min(trunk.len() - 1, if thorough { 12 } else { 7 });
+			for i in &trunk[1..=m] {
+				hdr(out, &so, "so", *i);
+			}
+			let mut order: Vec<usize> = trunk[2..=m].to_vec();
+			order.reverse();
+			if rng.chance(1, 2) {
+				shuffle(rng, &mut order);
+			}
+			for (k, i) in order.iter().enumerate() {
+				let o = opt_choices[k % 4];
+				deliver(out, &so, "so", *i, o, &mut stats);
+				if rng.chance(1, 3) {
+					// parked a second time: the pool keeps the options of the LAST offer
+					let o2 = opt_choices[(k + 1 + rng.below(3) as usize) % 4];
+					deliver(out, &so, "so", *i, o2, &mut stats);
+					*stats.entry("opts:orphan-parked-twice".into()).or_insert(0) += 1;
+				}
+				orph_line(out, &so, "so");
+			}
+			discard_status();
+			let o = grin_chain::Options::from_bits_truncate(5);
+			let r = match so.c().process_block(kit.blks[trunk[1]].block.clone(), o) {
+				Ok(Some(_)) => "ok:head".to_string(),
+				Ok(None) => "ok:fork".to_string(),
+				Err(e) => format!("err:{}", error_class(&e)),
+			};
+			out.line(&format!("chain deliver so b{} opts=5", trunk[1]), &r);
+			let (sl, evs) = drain_status_opts(kit);
+			out.line("chain statuso so", &sl);
+			*stats.entry(format!("opts:notifications-in-one-call={}", evs.len())).or_insert(0) += 1;
+			out.line("chain obs so", &so.obs(kit));
+			orph_line(out, &so, "so");
+			if evs.len() != m {
+				out.raw(&format!("#ORACLE-FAIL C03 {} blocks waited in the orphan pool for b{}; it arrived and {} blocks were announced", m - 1, trunk[1], evs.len()));
+			}
+		}
+		// --- phase E: header sync chunks with a wrong NON-LAST header ---
+		if vchain.len() >= 3 {
+			// `main`: the node's head is the chunk's root (the chunk extends the main branch);
+			// `fork`: the node has the whole trunk (the chunk is a fork branch)
+			for (mode, name) in [("main", "sc"), ("fork", "sf")] {
+				let mut subj = new_rec_subject(&format!("{}/{}_{}", work, name, hist), &kit.genesis);
+				// the twin gets every header singly
+				let single = new_rec_subject(&format!("{}/{}1_{}", work, name, hist), &kit.genesis);
+				out.raw(&format!("chain new {}", name));
+				for i in &trunk[1..] {
+					if mode == "main" && kit.blks[*i].height > kit.blks[chunk_root].height {
+						break;
+					}
+					let r = subj.deliver_block(&kit.blks[*i].block);
+					out.line(&format!("chain deliver {} b{}", name, i), &r);
+					let _ = single.deliver_block(&kit.blks[*i].block);
+				}
+				out.line(&format!("chain obs {}", name), &subj.obs(kit));
+				let header_state = |s: &Subject| -> (String, u64, Vec<bool>) {
+					let hh = s.c().header_head().unwrap();
+					let size = s.c().header_pmmr().read().size;
+					let stored: Vec<bool> = (0..kit.blks.len()).map(|i| s.c().get_block_header(&kit.blks[i].block.hash()).is_ok()).collect();
+					(kit.bid(&hh.last_block_h), size, stored)
+				};
+				for (kind, j, ids) in &twins {
+					let mut chunk: Vec<usize> = vchain[..*j].to_vec();
+					chunk.extend(ids.iter().cloned());
+					let hs: Vec<grin_core::core::BlockHeader> = chunk.iter().map(|i| kit.blks[*i].block.header.clone()).collect();
+					let before = header_state(&subj);
+					let obs_before = (subj.obs(kit), subj.roots());
+					let r = subj.sync_headers(&hs);
+					let l: Vec<String> = chunk.iter().map(|i| format!("b{}", i)).collect();
+					out.line(&format!("chain hdrs {} [{}]", name, l.join(",")), &r);
+					out.line(&format!("chain obs {}", name), &subj.obs(kit));
+					*stats.entry(format!("chunk:{}:{}-wrong-at-{}-of-{}:{}", mode, kind, j, chunk.len(), r)).or_insert(0) += 1;
+					// the same headers singly, in order, on the twin: the chunk is taken iff each is
+					let singles: Vec<String> = chunk.iter().map(|i| single.deliver_header(&kit.blks[*i].block.header)).collect();
+					let all_single = singles.iter().all(|x| x == "ok");
+					if (r == "ok") != all_single {
+						out.raw(&format!(
+							"#ORACLE-FAIL C06 header chunk [{}] ({} header wrong at position {}) = {} but the same headers one by one = {:?}",
+							l.join(","), kind, j, r, singles
+						));
+					}
+					if r != "ok" && (header_state(&subj) != before || (subj.obs(kit), subj.roots()) != obs_before) {
+						let after = header_state(&subj);
+						out.raw(&format!(
+							"#ORACLE-FAIL C06 a refused header chunk [{}] ({} header wrong at position {}) left something behind: header_head {} -> {}, header MMR size {} -> {}, stored headers changed: {}",
+							l.join(","), kind, j, before.0, after.0, before.1, after.1, before.2 != after.2
+						));
+					}
+					// the full blocks of the wrong header and of its followers: never taken
+					let head_before = subj.obs(kit);
+					for i in ids {
+						let r = deliver(out, &subj, name, *i, 1, &mut stats);
+						if r.starts_with("ok") {
+							out.raw(&format!(
+								"#ORACLE-FAIL C03 the block b{} ({} header wrong at position {} of a refused chunk, or built on it) was accepted: {}; before [{}] after [{}]",
+								i, kind, j, r, head_before, subj.obs(kit)
+							));
+						}
+					}
+					if strip(&subj.obs(kit)) != strip(&head_before) {
+						out.raw(&format!("#ORACLE-FAIL C06 refused blocks of a refused header chunk moved the node: [{}] -> [{}]", head_before, subj.obs(kit)));
+					}
+					if rng.chance(1, 3) {
+						match reopen_rec(&mut subj) {
+							Ok(_) => out.line(&format!("chain reopen {}", name), "ok"),
+							Err(e) => out.line(&format!("chain reopen {}", name), &format!("err:{}", e)),
+						}
+					}
+				}
+				// a later valid chunk is still taken, in two overlapping pieces, then the bodies
+				let hs: Vec<grin_core::core::BlockHeader> = vchain.iter().map(|i| kit.blks[*i].block.header.clone()).collect();
+				for (a, b) in [(0usize, 2usize), (1, vchain.len())] {
+					let r = subj.sync_headers(&hs[a..b]);
+					let l: Vec<String> = vchain[a..b].iter().map(|i| format!("b{}", i)).collect();
+					out.line(&format!("chain hdrs {} [{}]", name, l.join(",")), &r);
+					out.line(&format!("chain obs {}", name), &subj.obs(kit));
+					*stats.entry(format!("chunk:{}:valid-chunk-after-refused-ones:{}", mode, r)).or_insert(0) += 1;
+					if r != "ok" {
+						out.raw(&format!("#ORACLE-FAIL C03 a valid header chunk [{}] was refused after refused chunks: {}", l.join(","), r));
+					}
+				}
+				for i in &vchain {
+					deliver(out, &subj, name, *i, 1, &mut stats);
+				}
+				let v = match subj.c().validate(true) {
+					Ok(_) => "ok".to_string(),
+					Err(e) => format!("err:{}", error_class(&e)),
+				};
+				out.line(&format!("chain validate {}", name), &v);
+			}
+		}
+		for (k, v) in g.stats.clone() {
+			*stats.entry(k).or_insert(0) += v;
+		}
+		*stats.entry("known:histories".into()).or_insert(0) += 1;
+		drop(sk);
+		drop(rf);
+		let _ = std::fs::remove_dir_all(work);
+		let _ = std::fs::create_dir_all(work);
+	}
+	stats
+}
+
 fn main() {
 	quiet_panics();
 	setup_globals();
@@ -4114,6 +4679,15 @@ fn main() {
 		// (ignored in the thorough tier, which always runs the full c13)
 		let noprobe = args.get(2).map(|s| s == "noprobe").unwrap_or(false) && !thorough;
 		let st = run_c13(&mut out, &mut rng, &work, noprobe);
+		for (k, v) in st {
+			out.raw(&format!("#STAT {}={}", k, v));
+		}
+		flush_complaints(&mut out);
+		out.flush();
+		return;
+	}
+	if args.get(1).map(|s| s == "known").unwrap_or(false) {
+		let st = run_known(&mut out, &mut rng, &work, thorough);
 		for (k, v) in st {
 			out.raw(&format!("#STAT {}={}", k, v));
 		}
